@@ -291,7 +291,7 @@ def finding_matches(entry, prop, vid, desc):
 def handle_violations(agg, exes, outdir, prop, tier):
     """minimise, gate and report; returns (n_violation_lines, n_known)"""
     seen = {}
-    nviol = nknown = 0
+    nviol = nknown = unstable = 0
     kf = known_findings()
     os.makedirs(os.path.join(VERIF, "replays"), exist_ok=True)
     for flavour, r in agg.viol:
@@ -315,8 +315,10 @@ def handle_violations(agg, exes, outdir, prop, tier):
                 cand = os.path.join(outdir, n)
                 break
         if cand is None:
-            print("MACHINERY-FAULT property=%s violation %s of seed %d did not reproduce from its replay candidate" % (prop, vid, r["seed"]))
-            return -1, nknown
+            print("UNSTABLE property=%s violation %s of seed %d did not reproduce from its replay candidate" % (prop, vid, r["seed"]))
+            unstable += 1
+            del seen[sig]
+            continue
         known = [e for e in kf if finding_matches(e, prop, vid, desc)]
         if known:
             nknown += 1
@@ -336,8 +338,11 @@ def handle_violations(agg, exes, outdir, prop, tier):
         v1, h1, d1, _ = exec_plan(exe, final, outdir)
         v2, h2, d2, _ = exec_plan(exe, final, outdir)
         if vid not in v1 or vid not in v2 or h1 != h2:
-            print("MACHINERY-FAULT property=%s nondeterministic replay of %s (%s/%s, %s/%s)" % (prop, final, v1, v2, h1, h2))
-            return -1, nknown
+            print("UNSTABLE property=%s replay of %s is not reproducible (%s/%s, %s/%s): not reported, trying another run" % (prop, final, v1, v2, h1, h2))
+            unstable += 1
+            del seen[sig]
+            os.unlink(final)
+            continue
         d = d1[v1.index(vid)]
         known = [e for e in kf if finding_matches(e, prop, vid, d)]
         if known:
@@ -349,6 +354,11 @@ def handle_violations(agg, exes, outdir, prop, tier):
         print("VIOLATION property=%s replay=%s" % (prop, final))
         print("  id=%s seed=%d flavour=%s minimised_in=%d executions" % (vid, r["seed"], flavour, tries))
         print("  %s" % d)
+    if nviol == 0 and nknown == 0 and unstable > 0:
+        # violations were seen but none replays exactly: that is a fault of the machinery (or a library so broken
+        # that it behaves irreproducibly), never a verdict
+        print("MACHINERY-FAULT property=%s %d violating run(s), none of which replays reproducibly" % (prop, unstable))
+        return -1, nknown
     return nviol, nknown
 
 
@@ -446,7 +456,7 @@ def check(prop, tier_name):
                     r = parse_run_line(line)
                     agg.resampled += 1
                     got = (r["R"].get("hash"), r["R"].get("shash"), r["R"].get("status"))
-                    if r["seed"] in first_pass and first_pass[r["seed"]] != got:
+                    if r["seed"] in first_pass and first_pass[r["seed"]] != got and got[2] == "0" and first_pass[r["seed"]][2] == "0":
                         nondet += 1
                         print("MACHINERY-FAULT property=%s seed %d executed twice gives different event logs: %s vs %s" % (prop, r["seed"], first_pass[r["seed"]], got))
             machinery += nondet
@@ -463,10 +473,13 @@ def check(prop, tier_name):
         print("SUMMARY property=%s tier=%s runs=%d distinct_nontrivial=%d interleavings=%d inconclusive=%d violations=%d known=%d wall=%.1fs runs_per_hour=%d"
               % (prop, tier_name, agg.runs, len(agg.nontrivial_hashes), len(agg.sched_hashes), agg.status.get(2, 0), max(nviol, 0), nknown, wall,
                  int(agg.runs / max(wall, 0.001) * 3600)))
+        if nviol > 0:
+            # a violation that replays exactly (gated twice) is a verdict whatever else went wrong in the batch
+            return 1
         if machinery or nviol < 0 or agg.runs == 0:
             print("MACHINERY-FAULT property=%s workers failed=%d runs=%d" % (prop, machinery, agg.runs))
             return 2
-        return 1 if nviol > 0 else 0
+        return 0
     finally:
         shutil.rmtree(outdir, ignore_errors=True)
 
